@@ -48,10 +48,14 @@ def case_stats(path, stats):
         o = c["obj"]
         if o["k"] == "dist":
             stats["dist_names"].update(names_of(o["cfg"]))
+            hv = o["cfg"]["f"]["Parameters"].get("hv")
+            if hv and not c["faults"]:
+                stats["hmm_variants"][hv] += 1
             for f in c["faults"]:
                 stats["cfg_faults"][f["f"]] += 1
             continue
         stats["kinds"][(o["k"], o["cls"], o["st"], c["fmt"], view_word(o))] += 1
+        stats["layouts"][c.get("layout", "canonical")] += 1
         for f in c["faults"]:
             stats["faults"][f["f"]] += 1
         stats["types"].update(c["types"])
@@ -167,7 +171,8 @@ def run(ctx):
     t = TIERS[ctx.tier]
     ctx.sany("SerializationTrace")
     stats = dict(kinds=collections.Counter(), faults=collections.Counter(), cfg_faults=collections.Counter(),
-                 types=set(), atoms=collections.Counter(), model=collections.Counter(), dist_names=set())
+                 types=set(), atoms=collections.Counter(), model=collections.Counter(), dist_names=set(),
+                 layouts=collections.Counter(), hmm_variants=collections.Counter())
     # 1. the model: contract invariants + case generation
     files = {}
     ncases = {}
@@ -201,6 +206,12 @@ def run(ctx):
             for w in ("id", "T", "S", "ST", "TS"):
                 if not any(k[0] == "matrix" and k[2] == st and k[3] == fm and k[4] == w for k in stats["kinds"]):
                     raise vlib.Infra("vacuity: no matrix case %s/%s/%s" % (st, fm, w))
+    for lay in ("NoFinalNewline", "CRLF", "TrailingBlanks"):
+        if stats["layouts"][lay] == 0:
+            raise vlib.Infra("vacuity: table layout %s never generated" % lay)
+    for hv in ("start", "final", "startfinal", "statemap"):
+        if stats["hmm_variants"][hv] == 0:
+            raise vlib.Infra("vacuity: HMM variant %s never generated" % hv)
     if stats["model"]["error"] == 0 or stats["model"]["object"] == 0:
         raise vlib.Infra("vacuity: the model decoder never errs / never accepts")
     # 2. the driver
@@ -290,7 +301,9 @@ def run(ctx):
                                       "byte_mutations": mcounts["mutations"]}
     ctx.extra["child_deaths_attributed"] = counts["deaths"]
     ctx.extra["per_action_counts"] = {"faults": dict(stats["faults"]), "config_faults": dict(stats["cfg_faults"]),
-                                      "model_decoder": dict(stats["model"])}
+                                      "model_decoder": dict(stats["model"]), "table_layouts": dict(stats["layouts"]),
+                                      "hmm_variants": dict(stats["hmm_variants"])}
+    ctx.extra["layout_variants_rejected_with_error"] = counts["layout_rejected"]
     ctx.extra["element_types"] = sorted(stats["types"])
     ctx.extra["recorded_events"] = nev
     ctx.extra["bounds"] = dict(t, atoms=10, scalar_N="0..2", vector_n="0..%d (+slices of 1..%d)" % (t["maxdim"] + 1, t["maxdim"] + 2),
